@@ -53,6 +53,10 @@ def run(ck: Check) -> int:
     BT = ['a', 'f', '-', '0', '[:digit:]', '[:alpha:]', '[:punct:]', '!', 'Z', ']']
     import itertools as _it
     brk = ['[' + ''.join(t) + ']' for L in range(1, 5 if quick else 6) for t in _it.product(BT, repeat=L)]
+    # escaped members / range end points inside a bracket (added after seeded change C01e: `[\\/]` emitted a nested set in
+    # fnmatch mode only)
+    BE = ['a', 'c', '-', '!', '/', '\\/', '\\]', '\\-', '\\a', '\\\\', '\\[', '+']
+    brk += ['[' + ''.join(t) + ']' for L in range(1, 4 if quick else 5) for t in _it.product(BE, repeat=L)]
     alpha = 'ab.*?[]!()|' if quick else 'ab.*?[]!()|+@\\-'
     exh = list(gen.exhaustive(alpha, 3 if quick else 4))
 
@@ -89,7 +93,8 @@ def run(ck: Check) -> int:
     ck.stream('K1prime-tidy', s_tidy)
 
     names = [n for n in gen.names_upto('ab.A-', 3) if n] + ['a.b', 'ab.a', 'a..b', 'abab', 'a\n', 'b-a.', 'a.txt', '\n',
-                                                                 '0', '5', 'e', 'f', 'g', 'Z', '!', ']', '[', ',', 'xa', 'xe-', 'x-', 'x0']
+                                                                 '0', '5', 'e', 'f', 'g', 'Z', '!', ']', '[', ',', 'xa', 'xe-', 'x-', 'x0',
+                                                                 '/', 'c', '\\', '+', 'a/', '/]', '[/]', 'a]', 'x/', 'x\\', 'x+', 'x]', 'xc']
 
     def s_k2(sr):
         cases = [(p, R.choice(fsets) | F.EXTMATCH, False) for p in gram[: (1500 if quick else 20000)]]
@@ -133,7 +138,10 @@ def run(ck: Check) -> int:
                     if api == 'fnmatch':
                         got = [F.fnmatch(n, p, flags=fl) for n in names]
                     elif api == 'filter':
-                        keep = set(F.filter(names, p, flags=fl))
+                        # every kind of iterable the signature admits (added after seeded change C01f: a peek consumed the
+                        # first name of a one-shot iterator)
+                        src = (names, iter(names), (n for n in names), tuple(names), map(str, names))[(k // 3) % 5]
+                        keep = set(F.filter(src, p, flags=fl))
                         got = [n in keep for n in names]
                     else:
                         m = F.compile(p, flags=fl)
